@@ -36,6 +36,8 @@ def target_specs(draw, d, kinds=("gauss", "gauss", "cliff", "mix")):
         return {"kind": "logreg", "d": d, "n_data": draw(st.integers(5, 30)), "data_seed": draw(st.integers(0, 10**6))}
     if kind == "flat":
         return {"kind": "flat", "d": d}
+    if kind == "plateau":
+        return {"kind": "plateau", "d": d, "c": [draw(st.floats(-2, 2)) for _ in range(d)], "w": [10 ** draw(st.floats(-0.5, 0.5)) for _ in range(d)]}
     raise KeyError(kind)
 
 
@@ -44,7 +46,7 @@ def sampler_configs(draw, classes=CLASSES, max_d=4, target_kinds=("gauss", "gaus
                     temperature="maybe", progress=(True, False)):
     cls = draw(st.sampled_from(list(classes)))
     d = draw(st.integers(2 if cls == "pca" else 1, max_d))
-    kinds = tuple(k for k in target_kinds if not (cls == "hmc" and k in ("cliff", "flat", "cells"))) or ("gauss",)
+    kinds = tuple(k for k in target_kinds if not (cls == "hmc" and k in ("cliff", "flat", "cells", "plateau"))) or ("gauss",)
     tgt = draw(target_specs(d, kinds))
     d = tgt["d"]
     cfg = {"seed": draw(st.integers(0, 2**31)), "cls": cls, "d": d, "target": tgt,
@@ -67,7 +69,9 @@ def sampler_configs(draw, classes=CLASSES, max_d=4, target_kinds=("gauss", "gaus
     if cls == "ensemble":
         cfg["ens"] = {"extra_walkers": draw(st.integers(1, 6)), "alpha": draw(st.sampled_from([2.0, 1.5, 3.0, draw(st.floats(1.2, 5))])),
                       # whole-number starting positions may be held in an integer array
-                      "pos_int": draw(st.sampled_from([False, False, False, True]))}
+                      "pos_int": draw(st.sampled_from([False, False, False, True])),
+                      # one parameter: the starting positions may be a 1-D array (documented as accepted)
+                      "pos_1d": draw(st.booleans())}
     if cls in ("gibbs", "metropolis"):
         lim = []
         if bounds != "never":
@@ -91,6 +95,8 @@ def centre_scale(cfg):
         c, s = np.zeros(d), np.full(d, 2.0)
     elif t["kind"] == "quartic":
         c, s = np.zeros(d), np.array(t["scale"], dtype=float)
+    elif t["kind"] == "plateau":
+        c, s = np.array(t["c"], dtype=float), 2.0 * np.array(t["w"], dtype=float)
     else:
         c, s = np.zeros(d), np.ones(d)
     return c, s * np.sqrt(cfg.get("T", 1.0))
@@ -195,7 +201,10 @@ def build(cfg, target=None, record=True):
             n_w = d + cfg["ens"]["extra_walkers"] + 1
             g = rngctl.rng(cfg["seed"], 21)
             c, s = centre_scale(cfg)
-            if box is None:
+            if box is None and cfg["target"]["kind"] == "plateau":
+                # every walker starts on the flat top, where the posterior returns the integer 0
+                pos = np.array(cfg["target"]["c"])[None, :] + np.array(cfg["target"]["w"])[None, :] * g.uniform(-0.9, 0.9, size=(n_w, d))
+            elif box is None:
                 pos = start[None, :] + s[None, :] * g.normal(size=(n_w, d))
             else:
                 pos = box[0][None, :] + g.uniform(0.05, 0.95, size=(n_w, d)) * (box[1] - box[0])[None, :]
@@ -204,6 +213,8 @@ def build(cfg, target=None, record=True):
                 inside = box is None or (np.all(ipos >= box[0]) and np.all(ipos <= box[1]))
                 if inside and np.linalg.matrix_rank(ipos - ipos.mean(axis=0)) == d and len({tuple(r) for r in ipos.tolist()}) == n_w:
                     pos = ipos.astype(np.int64)
+            if d == 1 and cfg["ens"].get("pos_1d"):
+                pos = pos[:, 0].copy()
             info["positions"] = pos
             ch = EnsembleSampler(posterior=tgt, starting_positions=pos, alpha=cfg["ens"]["alpha"], bounds=bounds_arg, **kw)
         else:
